@@ -65,6 +65,19 @@ class Gen:
 
 	def g_tlv(self):
 		r = self.r
+		if r.random() < 0.25:
+			# the length lives in a bit-field of an earlier set
+			bl = r.choice((3, 4, 6))
+			rest = 8 - bl
+			name = self.name("v")
+			flds = [{"name": name, "bl": bl, "val": None}, {"name": self.name("v"), "bl": rest, "val": None}]
+			if r.random() < .5:
+				flds.reverse()
+			B = {"k": "bits", "order": r.choice(("big", "little")), "len": 1, "fields": flds, "explicit_len": False, "pres": None}
+			V = self.g_buf(0)
+			V["len_from"] = name
+			V["len_max"] = (1 << bl) - 1
+			return [B, V]
 		L = self.g_int(small = True)
 		V = self.g_buf(0)
 		V["len_from"] = L["name"]
@@ -198,6 +211,7 @@ def gen_vals(r, fields):
 		elif k == "buf":
 			if f.get("len_from"):
 				n = r.choice((0, 1, 2, 255)) if r.random() < .3 else r.randint(0, 20)
+				n = min(n, f.get("len_max", 255))
 				v[f["name"]] = r.randbytes(n)
 			else:
 				v[f["name"]] = r.randbytes(f["len"] if f["len"] else r.randint(0, 16))
@@ -213,8 +227,8 @@ def gen_vals(r, fields):
 	# explicit length fields of TLVs that are not derived
 	for f in fields:
 		if f["k"] == "buf" and f.get("len_from") and f["name"] in v:
-			lf = next(x for x in fields if x.get("name") == f["len_from"])
-			if not lf.get("derive"):
+			lf = next((x for x in fields if x.get("name") == f["len_from"]), None)
+			if lf is None or not lf.get("derive"):
 				v[f["len_from"]] = len(v[f["name"]])
 	return v
 
@@ -285,6 +299,9 @@ def check_definition(ctx, r, idx):
 	w = {"definition": ast}
 	try:
 		real = mk_real(ast)
+		# a second instance of the very same definition class: the two share the field objects of the
+		# class and must not disturb each other
+		other = type(real)(check_len = ast["check_len"])
 	except Exception as e:
 		ctx.violation("build", w, what = "the codec refuses a definition composed from its building blocks: %s: %s" % (type(e).__name__, e))
 		return
@@ -312,8 +329,11 @@ def check_definition(ctx, r, idx):
 			ctx.violation("encode", dict(w, got = enc[:40].hex(), expected = want[:40].hex()),
 				what = "to_bytes() differs from the definition's declared layout")
 			return
-		# decode the encoding
-		res = real_decode(ctx, real, enc)
+		# decode the encoding (every other time with the second instance of the definition)
+		dec_inst = other if s % 2 else real
+		if s % 2:
+			ctx.count("decoded_by_second_instance")
+		res = real_decode(ctx, dec_inst, enc)
 		if res[0] != "ok":
 			ctx.violation("decode", dict(w, octets = enc[:40].hex()), what = "from_bytes() rejects the encoding of in-range values (%s)"
 				% (res[0] if res[0] == "reject" else type(res[1]).__name__))
@@ -324,7 +344,7 @@ def check_definition(ctx, r, idx):
 			return
 		# canonical re-encoding of the decoded message
 		try:
-			again = bytes(real.to_bytes())
+			again = bytes(dec_inst.to_bytes())
 		except Exception as e:
 			ctx.violation("reencode", w, what = "re-encoding a decoded message fails: %s" % type(e).__name__)
 			return
@@ -464,6 +484,7 @@ def run(ctx):
 	ctx.require("unencodable_int_refused", 100)
 	ctx.require("unencodable_buf_refused", 100)
 	ctx.require("overwide_truncated", 100)
+	ctx.require("decoded_by_second_instance", 500)
 	for k in ("shape:bits/little", "shape:bits/big", "shape:env", "shape:seq", "shape:buf/tlv", "depth:3"):
 		ctx.require(k, 20)
 
